@@ -120,10 +120,15 @@ def gen_lists(rng, A, count):
             if it["named"] and sig in sigs:
                 continue            # documented exclusion: two named units of identical dim/mag/origin
             # ... including the named units *inside* scaled units (they meet in DistinctUnscaledUnits)
-            bsig = (tuple(sorted(A.atoms[base]["mag"].items())), A.atoms[base]["has_origin"])
-            if any(b2 != base and s2 == bsig for b2, s2 in base_sigs):
+            # the unit that reaches DistinctUnscaledUnits: the base of an anonymous ScaledUnit, the unit itself when it is named (a
+            # generated struct derived from a ScaledUnit is its own unscaled unit, with the scaled magnitude)
+            if it["kind"] == "gen":
+                ident, bsig = it["cxx"], (tuple(sorted(it["mag"].items())), it["origin"])
+            else:
+                ident, bsig = base, (tuple(sorted(A.atoms[base]["mag"].items())), A.atoms[base]["has_origin"])
+            if any(b2 != ident and s2 == bsig for b2, s2 in base_sigs):
                 continue
-            base_sigs.append((base, bsig))
+            base_sigs.append((ident, bsig))
             if it["named"]:
                 sigs.add(sig)
             items.append(it)
